@@ -109,7 +109,60 @@ for (l, c), (fails, sample, accepted) in zip(cases, results):
         distinct.add(tuple(l))
     if sample and len(samples) < 3:
         samples.append(sample)
-print(json.dumps({"bound": "pipelines of length 1..2 exhaustive, length 3 exhaustive over the 11 flow-relevant node configurations, 3..4 seeded samples over all 19 (sources, float ops with/without defaults, probes, rename/delete incl. self-rename, a collection op, an unknown parameter); ordinary and falsy (0.0) values",
+
+
+def reported_origin_is_the_channel_used():
+    """what inspection reports about a parameter (value from the node configuration / the signature default, or the context key and
+    the node that creates it) is what the processor receives at run time - for a plain node and for a node wrapped by a sweep"""
+    global evaluations
+    from semantiva.examples.test_utils import FloatOperation, FloatValueDataSource, FloatCollectValueProbe
+    seen = []
+
+    class RecordingAffine(FloatOperation):
+        """gain * x + offset; records the parameters it is called with"""
+
+        def _process_logic(self, data, gain: float, offset: float = 100.0):
+            seen.append({"gain": gain, "offset": offset})
+            return FloatDataType(gain * data.data + offset)
+
+    src = {"processor": FloatValueDataSource, "parameters": {"value": 3.0}}
+    for shape in ("plain", "sweep"):
+        # (a defaulted parameter whose key happens to be in the INITIAL context is not knowable from the configuration: not a case)
+        for supply in ("configuration", "upstream-probe", "default"):
+            evaluations += 1
+            distinct.add(("reported-origin", shape, supply))
+            node = {"processor": RecordingAffine, "parameters": {}}
+            if shape == "plain":
+                node["parameters"]["gain"] = 2.0
+            else:
+                node["derive"] = {"parameter_sweep": {"parameters": {"gain": "g"}, "variables": {"g": {"values": [1.0, 2.0]}}, "collection": "FloatDataCollection"}}
+            if supply == "configuration":
+                node["parameters"]["offset"] = 5.0
+            nodes = [src] + ([{"processor": FloatCollectValueProbe, "context_key": "offset"}] if supply == "upstream-probe" else []) + [node]
+            ctx = {"offset": 7.0} if supply == "initial-context" else {}
+            case = {"shape": shape, "supplied_by": supply}
+            try:
+                insp = build_pipeline_inspection(nodes)
+                ni = insp.nodes[-1]
+                if "offset" in getattr(ni, "config_params", {}):
+                    claimed = ("configuration-or-default", ni.config_params["offset"])
+                elif "offset" in getattr(ni, "context_params", {}):
+                    claimed = ("context", 7.0 if supply == "initial-context" else 3.0)
+                else:
+                    claimed = None
+                del seen[:]
+                Pipeline(nodes).process(Payload(NoDataType(), ContextType(dict(ctx))))
+            except Exception as e:       # noqa
+                failures.append(dict(case, **{"class": "reported-origin-case-raised", "exc": repr(e)[:200]}))
+                continue
+            if claimed is None:
+                failures.append(dict(case, **{"class": "inspection-reports-no-origin-for-a-declared-parameter"}))
+            elif not seen or any(r["offset"] != claimed[1] for r in seen):
+                failures.append(dict(case, **{"class": "reported-origin-is-not-the-channel-used", "inspection_says": list(claimed), "processor_received": seen[:3]}))
+
+
+reported_origin_is_the_channel_used()
+print(json.dumps({"bound": "reported origin vs received value: {plain, swept} node x parameter supplied by {configuration, upstream probe, default}; pipelines of length 1..2 exhaustive, length 3 exhaustive over the 11 flow-relevant node configurations, 3..4 seeded samples over all 19 (sources, float ops with/without defaults, probes, rename/delete incl. self-rename, a collection op, an unknown parameter); ordinary and falsy (0.0) values",
                   "evaluations": evaluations, "distinct_nontrivial": len(distinct),
                   "rule": "non-trivial = configuration accepted by inspection+validation (then executed with exactly the reported required keys); distinct = distinct node-label sequences",
                   "failures": failures[:30], "samples": samples}, default=str))
